@@ -11,6 +11,7 @@ import SqlProofs.WsRespell.Def
 import SqlProofs.WsRespell.SqueezeDef
 import SqlProofs.WsRespell.GapDef
 import SqlModel.LexCost
+import SqlProofs.SplitHeader
 open Sql
 
 def hexVal (ch : Char) : Nat :=
@@ -157,6 +158,17 @@ def cmdQuiet (s : Array Nat) : String :=
   | .ok ts =>
     let r := runFL defaultSplitCfg {} 0 ts
     s!"ok {quiet defaultSplitCfg {} 0 ts} {headNotEos defaultSplitCfg ts} {r.snd} {r.fst.isCreate} {r.fst.beginDepth} {r.fst.inCase}"
+
+/-- `hdrok <hex text>`: the syntactic header hypothesis of `C17.create_one_statement_syntactic_header` on the tokens before the
+first BEGIN keyword: `ok <first token is of kind create> <hdrOK of the tokens between> <number of header tokens>` -/
+def cmdHdrOk (s : Array Nat) : String :=
+  match lex defaultCfg s with
+  | .error e => "err " ++ e.name
+  | .ok ts =>
+    let hdr := ts.takeWhile (fun t => !(kindIs defaultSplitCfg t .begin_))
+    match hdr with
+    | [] => "ok false false 0"
+    | c :: hs => s!"ok {kindIs defaultSplitCfg c .create} {hdrOK defaultSplitCfg 0 hs} {hdr.length}"
 
 /-- `views <hex text>`: the splitter's view (SqlProofs/SplitValue.lean `tokView`) of every non-whitespace token -/
 def cmdViews (s : Array Nat) : String :=
@@ -343,6 +355,7 @@ def handle (line : String) : String :=
   | "wsclass" :: _ => cmdWsClass
   | "csl" :: rest => cmdCsl rest
   | "quiet" :: rest => cmdQuiet (parseText rest)
+  | "hdrok" :: rest => cmdHdrOk (parseText rest)
   | "views" :: rest => cmdViews (parseText rest)
   | "parse" :: rest => cmdParse rest
   | "group" :: rest => cmdGroup rest
